@@ -405,7 +405,7 @@ func (e *Engine) globalConst(fx *FuncCtx, g *ssa.Global) *Val {
 	case *types.Pointer:
 		// initialised with a non-nil allocation in every case present in /repo
 		if e.globalInitNonNil(g) {
-			fx.u.axioms = append(fx.u.axioms, "(assert (and (> "+name+" 0) (<= "+name+" alloc@0)))")
+			fx.emit("(assert (and (> " + name + " 0) (<= " + name + " alloc@0)))")
 		}
 	}
 	return v
@@ -579,9 +579,9 @@ func reTerm(re *syntax.Regexp) (string, error) {
 				continue
 			}
 			if lo == hi {
-				alts = append(alts, "(str.to_re "+smtStringLit(string(rune(lo)))+")")
+				alts = append(alts, "(str.to_re "+smtCharLit(lo)+")")
 			} else {
-				alts = append(alts, "(re.range "+smtStringLit(string(rune(lo)))+" "+smtStringLit(string(rune(hi)))+")")
+				alts = append(alts, "(re.range "+smtCharLit(lo)+" "+smtCharLit(hi)+")")
 			}
 		}
 		if len(alts) == 0 {
@@ -900,4 +900,12 @@ func (e *Engine) listCallees(filter string) {
 	for _, k := range keys {
 		fmt.Printf("%-16s %4d  %s\n", class[k], count[k], k)
 	}
+}
+
+// smtCharLit renders one code point (0..255) as an SMT-LIB string literal.
+func smtCharLit(r rune) string {
+	if r >= 0x20 && r < 0x7f && r != '"' && r != '\\' {
+		return "\"" + string(r) + "\""
+	}
+	return fmt.Sprintf("\"\\u{%x}\"", r)
 }
